@@ -8,7 +8,7 @@ from harness.core import enc_str, dec_str
 
 PROPERTY = "C11"
 READY = True
-THEOREMS = ["C11.consts_ok", "C11.wf_checked", "C11.no_loss", "C11.read_render", "C11.int_text", "C11.norm_perm", "C11.keys_sorted", "C11.lines",
+THEOREMS = ["C11.consts_ok", "C11.wf_checked", "C11.json_domain_in_python_domain", "C11.no_loss", "C11.read_render", "C11.int_text", "C11.norm_perm", "C11.key_order", "C11.keys_sorted", "C11.lines",
             "C11.lines_own_chunks", "C11.read_lines", "C11.sort_then_render", "C11.one_line_fits", "C11.chunk_classes",
             "C11.text_determines_value"]
 RULE = ("one value per case, printed in both modes and consumed in every way a caller can (whole text, str(), lines "
@@ -23,7 +23,10 @@ RULE = ("one value per case, printed in both modes and consumed in every way a c
         "wrap limit -1..+2, one item of the width of an empty line -3..+3 / longer at the first, a middle, the last, "
         "the only position, long keys and values in dicts, nesting depth 30..101 (offsets beyond both limits), a value "
         "next to a string that spells it (1/'1', None/'None'/'null', 1.0/'1.0', []/'[]' ...) in one container and in "
-        "consecutive calls, keys that trap code-point order. Thresholds are read from the tree under test. "
+        "consecutive calls, keys that trap code-point order; Python mode only: dicts with int / bool / None keys "
+        "mixed with strings (every pair of key kinds in both insertion orders; '1' next to 1, 'True' next to True); "
+        "values in which the same dict / list object occurs at several places (every layout, `[row]*3`, shared "
+        "defaults), sent through the protocol as references. Thresholds are read from the tree under test. "
         "non-trivial = the value contains a non-empty container; distinct by protocol text")
 TRUSTED = ["str() of float (the text is handed to the model as data; str(int) is modelled: showInt)",
            "json.loads / ast.literal_eval / ast.parse (the oracle's readers)"]
@@ -32,7 +35,9 @@ ASSUMPTIONS = ["str() of a finite float follows the JSON number grammar, is not 
                "asserted by the generator for every float and exercised by every case with floats)",
                "json.loads / ast.literal_eval read a decimal integer text as that integer (the reader's intOf? is the "
                "specification of it; compared with both parsers on every printed text)",
-               "Python's == on dicts ignores the order of entries (C11.norm_perm states the permutation)"]
+               "Python's == on dicts ignores the order of entries (C11.norm_perm states the permutation)",
+               "dict keys are strings, ints, True/False/None (float and tuple keys are not modelled and not generated: "
+               "a float is text in the model and cannot be ordered there)"]
 
 
 # ------------------------------------------------------------------ translator
@@ -133,10 +138,12 @@ def translate(repo):
 
 # ------------------------------------------------------------------ value <-> protocol
 def enc_val(v):
-    """postfix program of a JSON-like value"""
+    """postfix program of a JSON-like value; a container object met again is sent as a reference
+    (`r:<k>` = the k-th container completed so far) so that sharing survives the protocol"""
     out = []
+    done = {}                   # id(container) -> index of completion
 
-    def go(x):
+    def atom(x):
         if x is True:
             out.append("T")
         elif x is False:
@@ -149,17 +156,28 @@ def enc_val(v):
             out.append("i:%d" % x)
         elif isinstance(x, float):
             out.append("n:" + enc_str(str(x)))
-        elif isinstance(x, list):
-            for y in x:
-                go(y)
-            out.append("l:%d" % len(x))
-        elif isinstance(x, dict):
-            for k, y in x.items():
-                out.append("s:" + enc_str(k))
-                go(y)
-            out.append("d:%d" % len(x))
         else:
             raise TypeError(type(x))
+
+    def go(x):
+        if isinstance(x, (list, dict)):
+            if id(x) in done:
+                out.append("r:%d" % done[id(x)])
+                return
+            if isinstance(x, list):
+                for y in x:
+                    go(y)
+                out.append("l:%d" % len(x))
+            else:
+                for k, y in x.items():
+                    if isinstance(k, float):
+                        raise TypeError("float key")
+                    atom(k)
+                    go(y)
+                out.append("d:%d" % len(x))
+            done[id(x)] = len(done)
+        else:
+            atom(x)
     go(v)
     return " ".join(out)
 
@@ -169,6 +187,7 @@ _INT = re.compile(r"-?[0-9]+\Z")
 
 def dec_val(tokens):
     st = []
+    built = []
     for t in tokens:
         if t == "T":
             st.append(True)
@@ -187,11 +206,17 @@ def dec_val(tokens):
             items = st[len(st) - n:]
             del st[len(st) - n:]
             st.append(items)
+            built.append(items)
         elif t.startswith("d:"):
             n = int(t[2:])
             items = st[len(st) - 2 * n:]
             del st[len(st) - 2 * n:]
-            st.append({items[2 * i]: items[2 * i + 1] for i in range(n)})
+            d = {items[2 * i]: items[2 * i + 1] for i in range(n)}
+            assert len(d) == n, "colliding dict keys"
+            st.append(d)
+            built.append(d)
+        elif t.startswith("r:"):
+            st.append(built[int(t[2:])])
         else:
             raise ValueError(t)
     assert len(st) == 1
@@ -201,20 +226,38 @@ def dec_val(tokens):
 _NUM = re.compile(r"-?(0|[1-9][0-9]*)(\.[0-9]+)?([eE][+-]?[0-9]+)?\Z")
 
 
-def _numbers_ok(v):
+def _numbers_ok(v, seen=None):
     """every number of the value prints as a JSON number (finite): the domain of C11"""
     if isinstance(v, list):
         return all(_numbers_ok(x) for x in v)
     if isinstance(v, dict):
-        return all(_numbers_ok(x) for x in v.values())
+        return all(_numbers_ok(x) for x in v.values()) and not any(isinstance(k, float) for k in v)
     if isinstance(v, float):                # a finite float: JSON number text that is not an integer text
         return bool(_NUM.match(str(v))) and not _INT.match(str(v))
+    return True
+
+
+def _str_keys_only(v):
+    if isinstance(v, list):
+        return all(_str_keys_only(x) for x in v)
+    if isinstance(v, dict):
+        return all(isinstance(k, str) for k in v) and all(_str_keys_only(x) for x in v.values())
     return True
 
 
 def mk_case(v, kind, off=0, rng=None):
     assert _numbers_ok(v), "generator produced a non-finite number"
     e = enc_val(v)
+    if not _str_keys_only(v):               # int / bool / None keys: Python mode only (not JSON data)
+        lines = ["pp p " + e, "ln p " + e, "lc p " + e, "lr p " + e, "l2 p " + e, "pa p " + e,
+                 "gen p %d %s" % (off, e), "pc p " + e, "pw p " + e]
+        try:
+            text = _printer("p")(v, no_color=True).plain_text()
+            if len(text) <= 3000:
+                lines.append("rd p " + enc_str(text))
+        except Exception:
+            pass
+        return {"lines": lines, "meta": {"kind": kind}}
     # every way a caller can consume the result: whole text, str(), streaming lines, lines collected first and
     # rendered afterwards (in order / reversed / by index), a second iteration, the whole text after an iteration
     lines = ["pp j " + e, "ln j " + e, "lc j " + e, "lr j " + e, "l2 j " + e, "li j " + e, "lp j " + e, "lz j " + e,
@@ -461,18 +504,34 @@ def _read_py(text):
     return go(tree.body)
 
 
+def _doc_key_order(k):
+    """the documented order of dict keys: numbers (by value), then strings (by code point), then the
+    constants True / False / None (by name)"""
+    if k is True or k is False or k is None:
+        return (3, str(k))
+    if isinstance(k, (int, float)):
+        return (0, k)
+    return (1, k)
+
+
+def _kid(k):
+    return (type(k).__name__, k)
+
+
 def _same(got, want, path="$"):
     """None, or where the value read back differs from the value printed"""
     if isinstance(want, dict):
         if not isinstance(got, _Pairs):
             return "%s: a dict was printed, %s read back" % (path, type(got).__name__)
-        keys = [k for k, _ in got]
-        if keys != sorted(want.keys()):
-            if sorted(keys) == sorted(want.keys()):
-                return "%s: dict entries are not in sorted key order: %r" % (path, keys[:8])
+        keys = [_kid(k) for k, _ in got]
+        expect = [_kid(k) for k in sorted(want.keys(), key=_doc_key_order)]
+        if keys != expect:
+            if sorted(keys, key=repr) == sorted(expect, key=repr):
+                return "%s: dict entries are not in sorted key order: %r" % (path, [k for k, _ in got][:8])
             return "%s: dict keys lost or duplicated: %d printed, %d read back" % (path, len(want), len(keys))
+        byid = {_kid(k): w for k, w in want.items()}
         for k, g in got:
-            r = _same(g, want[k], "%s[%r]" % (path, k))
+            r = _same(g, byid[_kid(k)], "%s[%r]" % (path, k))
             if r:
                 return r
         return None
@@ -794,6 +853,59 @@ def _collision_values(rng):
     return x, sp, lst
 
 
+_PYKEYS = [0, 1, -1, 2, 9, 10, -10, 42, 10 ** 20, -(10 ** 20), True, False, None,
+           "", "0", "1", "-1", "10", "9", "True", "False", "None", "true", "null", "a", "B", "b", "~", "é"]
+
+
+def _pykey_dict(rng, n, value_fn):
+    """a dict with int / bool / None / string keys mixed (keys that are equal for Python, such as 1 and True,
+    never meet in one dict)"""
+    d = {}
+    for _ in range(n * 3):
+        if len(d) >= n:
+            break
+        r = rng.random()
+        k = rng.choice(_PYKEYS) if r < 0.7 else (rng.randint(-1000, 1000) if r < 0.85 else _key(rng))
+        if k in d:                          # also refuses True when 1 is there
+            continue
+        d[k] = value_fn()
+    return d
+
+
+def _shared_values(rng, lim_w):
+    """values in which the same container object occurs at several places (a DAG, no cycle)"""
+    kind = rng.randrange(7)
+    if kind == 0:
+        row = {"id": rng.randint(0, 99), "ok": True, "tag": None}          # one-line dict
+    elif kind == 1:
+        row = {"k%02d" % i: _str_of_len(rng, 20) for i in range(12)}          # all-simple dict, too long for a line
+    elif kind == 2:
+        row = {"a": [1, 2], "b": {"x": {}}}                                  # nested dict
+    elif kind == 3:
+        row = [1, "x", None]                                                 # one-line list
+    elif kind == 4:
+        row = _wrapped_list(rng, 2, lim_w)                                   # wrapped list
+    elif kind == 5:
+        row = [[1], {"a": 1}]                                                # item-per-line list
+    else:
+        row = rng.choice([[], {}])                                           # empty (simple) containers
+    shape = rng.randrange(7)
+    if shape == 0:
+        return [row] * rng.choice([2, 3, 5])
+    if shape == 1:
+        return {"a": row, "b": row}
+    if shape == 2:
+        return [row, [row], {"k": row}]
+    if shape == 3:
+        return {"defaults": row, "records": [{"n": i, "defaults": row} for i in range(3)]}
+    if shape == 4:
+        inner = [row, row]
+        return [inner, inner, row]
+    if shape == 5:
+        return [row, dict(row) if isinstance(row, dict) else list(row), row]   # shared and equal-but-distinct
+    return {"x": [row], "y": [row], "z": row}
+
+
 def mk_seq(values, kind):
     """several values through the same printer objects, one after the other (no memory between calls)"""
     lines = []
@@ -931,6 +1043,26 @@ def gen_cases(rng, tier):
             yield mk([x, sp], "collision")
             yield mk([sp, x], "collision")
             yield mk({"a": x, "b": sp}, "collision")
+    # 11. Python-mode keys: ints, bools, None mixed with strings (order: numbers, strings, constants)
+    for _ in range(250 if quick else 5000):
+        n = rng.choice([1, 2, 3, 5, 8, 25])
+        r = rng.random()
+        if r < 0.5:
+            v = _pykey_dict(rng, n, lambda: _simple(rng, 8))
+        elif r < 0.8:
+            v = _pykey_dict(rng, n, lambda: _value(rng, 3, False))
+        else:
+            v = [_pykey_dict(rng, 2, lambda: _simple(rng, 5)), {"s": _pykey_dict(rng, n, lambda: _simple(rng, 30))}]
+        yield mk(v, "python-keys", rng.choice([0, 3, 40]))
+    for a in (True, False, None, 0, 1, -5, 10, "1", "a", "True"):      # every pair of key kinds, both insertion orders
+        for b in (True, False, None, 0, 1, -5, 10, "1", "a", "True"):
+            if a != b and not (a in (0, 1) and b in (True, False) and a == b) and len({a: 0, b: 1}) == 2:
+                yield mk({a: "x", b: [1]}, "python-keys")
+    # 12. the same container object at several places of the value
+    for _ in range(200 if quick else 4000):
+        v = _shared_values(rng, lim_w)
+        depth = rng.choice([0, 0, 1, 3])
+        yield mk(_wrap(rng, v, depth), "shared", 2 * depth)
     # 10. call sequences on the same printer: the result of a call does not depend on earlier calls
     for _ in range(60 if quick else 1500):
         x, sp, lst = _collision_values(rng)
@@ -986,7 +1118,7 @@ def _smaller(v):
                 d = dict(v)
                 d[k] = y
                 yield d
-            if len(k) > 1 and k[:len(k) // 2] not in v:
+            if isinstance(k, str) and len(k) > 1 and k[:len(k) // 2] not in v:
                 yield {(k[:len(k) // 2] if a == k else a): b for a, b in v.items()}
     elif isinstance(v, str):
         if v:
@@ -1083,18 +1215,20 @@ LEVEL_TEXT = ("For every JSON-like value (any nesting, size and offset; strings 
               "chunk generator: the printed text lexes to exactly the tokens of the value with dict entries sorted by key "
               "(no element lost, duplicated or reordered in the one-line, wrapped and one-item-per-line layouts), a "
               "JSON-grammar reader returns that value (ints as integers), the sorted value is the same value up to dict "
-              "order, keys are strictly increasing by code point, the line iteration joined by line feeds is the text and "
+              "order, keys are strictly increasing in the printer's key order (ints by value, then strings by code point, "
+              "then False/None/True; Python mode reads int and constant keys back), the line iteration joined by line feeds is the text and "
               "closed lines never change, a container printed on one line ends left of the one-line limit, every chunk's "
               "syntax class agrees with its text, and the domain predicate is a test the driver runs on every request. "
               "Keyword tables, thresholds and indentation are re-read from ak/ppobj.py on every run; model = code (exact "
               "text, lines in nine consumption orders, call sequences, chunk lists with classes at offsets 0..40) and "
               "reader = json.loads / ast.literal_eval are established by differential runs.")
 LEVEL_NOTE = ("Kernel-checked theorems (axioms propext, Classical.choice, Quot.sound): C11.consts_ok, wf_checked, no_loss, "
-              "read_render, int_text, norm_perm, keys_sorted, lines, lines_own_chunks, read_lines, sort_then_render, "
+              "json_domain_in_python_domain, read_render, int_text, norm_perm, key_order, keys_sorted, lines, lines_own_chunks, read_lines, sort_then_render, "
               "one_line_fits, chunk_classes, text_determines_value. Resting on the sampled correspondence only: that the "
               "Lean model computes the text / lines / chunks of the real printer (compared character by character on ~5k "
               "values per quick run, boundaries of both thresholds measured on whole containers and on prefixes, over-long "
-              "items at every position, nesting to depth 101, value/spelling collisions, call sequences), that the object "
+              "items at every position, nesting to depth 101, value/spelling collisions, call sequences, non-string keys, "
+              "shared sub-objects), that the object "
               "has no memory between calls and between consumption orders (the model is a pure function; the adapter "
               "exercises nine orders and sequences), and that the Lean reader is what json.loads / ast.literal_eval do "
               "(compared on every printed text and on randomly damaged JSON texts; diagnostic). Trusted, not verified: "
